@@ -9,7 +9,7 @@ cd "$WT" || exit 2
 [ -f OUT/demo_hooks.diff ] && HOOKS=1 || HOOKS=0
 git diff -- src > /tmp/confirm_full.diff
 echo "== lib tests with the change"
-cargo test --offline --lib 2>&1 | grep -E "^test result|FAILED|failed" | head -8
+cargo test --offline --lib -- --test-threads 1 2>&1 | grep -E "^test result|FAILED|failed" | head -8
 echo "== demo with the change (expect FAIL)"
 timeout 600 cargo test --offline --test "$DEMO" 2>&1 | grep -E "^test result|panicked|FAILED|error" | head -5
 echo "== demo without the change (expect PASS)"
